@@ -8,7 +8,9 @@
    noconflicts; the active side resolves with DefaultConflictResolver).  [mkdig] is md5 over
    (parent id, body); the only fact used about it is collision freedom. *)
 From SG Require Import Base.Prelude C04.RevId C04.RevTree C04.WfProofs
-  C06.Replication C06.ResolverProofs C06.InvProofs C06.TransferProofs C06.ConvDefs C06.ConvThm C06.SysProofs.
+  C04.PushProofs C06.Replication C06.ResolverProofs C06.InvProofs C06.TransferProofs C06.ConvDefs C06.ConvThm C06.SysProofs
+  C06.UnionProofs.
+From Coq Require Import Permutation.
 Open Scope N_scope.
 
 Definition collision_free (mkdig : option revid -> body -> list N) : Prop :=
@@ -34,6 +36,23 @@ Proof.
   intros mkdig ops d. destruct (reachable_inv mkdig ops d) as [[W1 G1] [W2 G2]]. cbn zeta. auto.
 Qed.
 Print Assumptions C06_reachable_trees_wellformed.
+
+(* ---- conflicts allowed on both sides, no resolver, every leaf offered with its ancestry (style=all_docs +
+   _revs_diff + PutExistingRev): for ANY source history S and ANY two databases holding parts of it, after
+   Push; Pull both hold the union of the revisions, hence the same leaves, the same winner and the same
+   tombstone state, and rev_diff is empty both ways.  (The BLIP replicator offers only the winning
+   revision; for it one round is not enough on conflicting trees: UnionProofs.winner_only_not_union.) ---- *)
+Theorem C06_revdiff_union : forall S A B, wf S -> sub_tree S A -> sub_tree S B ->
+  exists B' A', transfer_all A B = Some B' /\ transfer_all B' A = Some A' /\
+    wf A' /\ wf B' /\
+    (forall i, contains A' i = true <-> (contains A i = true \/ contains B i = true)) /\
+    (forall i, contains B' i = true <-> (contains A i = true \/ contains B i = true)) /\
+    Permutation (leaves A') (leaves B') /\
+    tcur A' = tcur B' /\ winning A' = winning B' /\
+    del_of A' (tcur A') = del_of B' (tcur B') /\
+    rev_diff A' (map rid (leaves B')) = [] /\ rev_diff B' (map rid (leaves A')) = [].
+Proof. exact revdiff_union. Qed.
+Print Assumptions C06_revdiff_union.
 
 (* ---- re-running a replication that has run transfers nothing (ALL operation lists, deletes included) ---- *)
 Theorem C06_rerun_transfers_nothing : forall mkdig, collision_free mkdig -> forall ops d o,
